@@ -114,6 +114,9 @@ func (c *fconn) ReadFrom() (ndp.Message, *ipv6.ControlMessage, netip.Addr, error
 			return nil, nil, netip.Addr{}, m.err
 		}
 		vsched.Obs("read", "conn=%d %s hop=%d from=%s", c.id, m.m.Type(), m.hop, m.from)
+		c.w.mu.Lock()
+		c.w.nread++
+		c.w.mu.Unlock()
 		return m.m, &ipv6.ControlMessage{HopLimit: m.hop}, m.from, nil
 	case <-vsched.MR(s, 1, dl):
 		vsched.Woke(s, "conn.ReadFrom.wait")
@@ -268,6 +271,14 @@ type world struct {
 	nWrite, nFwd int
 
 	ndial int
+	// nread: messages handed to the code under test by a successful ReadFrom.
+	nread int
+}
+
+func (w *world) reads() int {
+	w.mu.Lock()
+	defer w.mu.Unlock()
+	return w.nread
 }
 
 func (w *world) now() time.Duration { return time.Since(w.start) }
